@@ -23,6 +23,26 @@ CHECKS = {
              'copy() is checked for equal contents/order, independence and an untouched source. Bounded model checking.',
         note='Trusted: CrossHair path exhaustion, z3, the reference cache. Outside: max_size > 3 (quick) / 4 (thorough), longer histories.',
         ref='C02'),
+    'C04': dict(
+        technique='bounded symbolic execution (CrossHair/z3) of the real AtomicSaver code over an in-memory POSIX/durability model: crash point, '
+                  'lost un-synced suffix, written byte strings and buffer limit are solver variables',
+        text='For 0..3 writes of symbolic byte strings (and text mode), destination present/absent, overwrite on/off, part_file given or not, the '
+             'process is killed in every ticked file-system / file-object call and after the with-block; for an arbitrary (unbounded symbolic) '
+             'amount of lost un-synced data the destination holds exactly the old or exactly the complete new content; at publication the part '
+             'inode was written, flushed, fsync-ed and closed; normal exit leaves the new content and no part file; two savers back to back. '
+             'All paths exhausted. Bounded model checking against a stated OS model.',
+        note='Trusted: the fakeos model (atomic ordered durable directory operations; data durable only after fsync), CrossHair/z3. Outside: real kernel/FS, Windows branch.',
+        ref='C04'),
+    'C05': dict(
+        technique='bounded symbolic execution (CrossHair/z3) of the real AtomicSaver code over the same OS model with fault injection: failing call(s), '
+                  'configuration, umask, initial destination/part state, racing creator and body exception are solver-chosen',
+        text='Every single injected OS failure (and pairs) at open/chmod/write/flush/fsync/close/rename/link, every combination of overwrite, '
+             'rm_part_on_exc, text_mode (and, in dedicated obligations, overwrite_part x pre-existing part, file_perms x umask x destination mode, a '
+             'destination appearing at any tick): an incomplete save raises, leaves destination bytes and mode untouched, leaves no part file when '
+             'rm_part_on_exc, never touches a foreign part file without overwrite_part, and an immediate retry succeeds; a completed save has the '
+             'explicit / inherited / umask permissions. Bounded model checking.',
+        note='Trusted: fakeos model, CrossHair/z3. Fault sites are the steps the statement lists; stat/lexists/unlink/fdopen are not fault sites.',
+        ref='C05'),
     'C09': dict(
         technique='bounded symbolic execution (CrossHair/z3): chunk_ranges on symbolic integers (offset unbounded); sequence helpers with '
                   'solver-decided lengths, element-class patterns, sizes, counts, maxsplit and key-equality patterns; oracles str.split/str.strip, slicing',
